@@ -12,6 +12,9 @@ import Mathlib.Algebra.Order.Field.Basic
   the quantifier, the class's dispatch (`pyBin`: forward method, reflected methods as coded,
   `bin_ops`, `pass_down_units`) returns exactly the specified table `specBin`
   (same operation on the converted constructs, unit from `unitSpec`), errors included;
+* `step_spec`, `hist_spec` : the same for histories — any sequence of operators applied to the
+  number derived from the previous result (`derive`: class, construct, magnitude, dimension of
+  the result and nothing else); `exponent_by_reflected_sub` : `X ** (c − V)`;
 * `PBn.rsub_mirror`, `neg_eq_zero_sub`, `rsub_pointwise`, `rdiv_pointwise_*` : on quantile lists,
   `c − U = −(U − c)`, `−U = 0 − U`, and `c − U`, `c / U` are pointwise `c − x`, `c / x` with the
   bounds exchanged and the probability levels reversed (zero-straddling divisor rejected).
@@ -128,11 +131,12 @@ theorem un_op_spec (alg : CAlg C) (op : Op) (l r : Opd C) (h : InScope l r) :
   | un u =>
     cases r with
     | un v =>
-      simp only [pyBin, dunder, binOps, specBin, consSpec, passDownUnits, dimOf, expoOf]
-      cases op <;> simp [qOp, unitSpec]
+      cases op <;>
+        simp [pyBin, dunder, binOps, specBin, consSpec, passDownUnits, dimOf, expoOf, qOp, unitSpec,
+          binEss, essSpec, passDownMag, magOp, magOf]
     | num c =>
       have hu := number_rule_forward u c op
-      simp [pyBin, dunder, binOps, specBin, consSpec, dimOf, expoOf, hu]
+      simp [pyBin, dunder, binOps, specBin, consSpec, dimOf, expoOf, hu, binEss, essSpec, passDownMag, magOf]
     | cons => simp [pyBin, dunder, binOps, specBin, consSpec]; rfl
     | other => simp [pyBin, dunder, binOps, specBin, consSpec]; rfl
   | num c =>
@@ -141,16 +145,16 @@ theorem un_op_spec (alg : CAlg C) (op : Op) (l r : Opd C) (h : InScope l r) :
       have hf := fun o => number_rule_forward u c o
       have hr := fun o => number_rule_reflected u c o
       cases op
-      · -- c + U  :=  U + c
-        simp only [pyBin, rdunder, dunder, binOps, specBin, consSpec, dimOf, expoOf, hf]
-        simp [unitSpec]
+      · -- c + U  :=  U + c  (magnitudes: nominal + c = c + nominal)
+        simp [pyBin, rdunder, dunder, binOps, specBin, consSpec, dimOf, expoOf, hf, unitSpec,
+          binEss, essSpec, passDownMag, magOp, magOf, add_comm]
       · simp only [pyBin, rdunder, binOps, specBin, consSpec, dimOf, expoOf, hr]
-        cases he : u.ess <;> simp
-      · simp only [pyBin, rdunder, dunder, binOps, specBin, consSpec, dimOf, expoOf, hf]
-        simp [unitSpec]
+        cases he : u.ess <;> simp [binEss, essSpec, passDownMag, magOf, numEss, he]
+      · simp [pyBin, rdunder, dunder, binOps, specBin, consSpec, dimOf, expoOf, hf, unitSpec,
+          binEss, essSpec, passDownMag, magOp, magOf, mul_comm]
       · simp only [pyBin, rdunder, binOps, specBin, consSpec, dimOf, expoOf, hr]
-        cases he : u.ess <;> simp
-      · simp only [pyBin, rdunder, rpow, specBin, consSpec, dimOf, expoOf, hr]
+        cases he : u.ess <;> simp [binEss, essSpec, passDownMag, magOf, numEss, he]
+      · simp [pyBin, rdunder, rpow, specBin, consSpec, dimOf, expoOf, hr, essSpec, passDownMag, magOf]
     | num _ => exact absurd h (by simp [InScope])
     | cons => exact absurd h (by simp [InScope])
     | other => exact absurd h (by simp [InScope])
@@ -159,11 +163,11 @@ theorem un_op_spec (alg : CAlg C) (op : Op) (l r : Opd C) (h : InScope l r) :
 
 example : InScope (C := Term) (.num 2) (.un ⟨.interval, .B, 3/2, ⟨1, 0, 0⟩⟩) := trivial
 example : pyBin termAlg .div (.num 2) (.un ⟨.dss, .B, 3/2, ⟨1, 0, 0⟩⟩)
-    = some (.ok ⟨.nc .div 2 (.conv .B), Dim.one.div ⟨1, 0, 0⟩⟩) := rfl
+    = some (.ok ⟨.pbox, .nc .div 2 (.conv .B), 2 / (3/2), Dim.one.div ⟨1, 0, 0⟩⟩) := rfl
 
 /-- unary minus: the negated construct, same unit -/
 theorem neg_spec (alg : CAlg C) (u : UNv C) :
-    pyNeg alg u = (alg.neg u.ess u.cons).map (fun c => ⟨c, u.dim⟩) := by
+    pyNeg alg u = (alg.neg u.ess u.cons).map (fun c => ⟨numEss u.ess, c, -u.nom, u.dim⟩) := by
   unfold pyNeg
   cases alg.neg u.ess u.cons <;> rfl
 
@@ -189,6 +193,71 @@ theorem add_incompatible_is_error (alg : CAlg C) (u v : UNv C) (hd : u.dim ≠ v
   · simp only [pyBin, dunder, binOps, passDownUnits, qOp, hd, if_false]
     cases alg.binCC _ (alg.conv u.ess u.cons) (alg.conv v.ess v.cons) <;>
       simp [bind, Except.bind, pure, Except.pure]
+
+/-! ## histories: a second (third, …) operation on a derived uncertain number -/
+
+/-- the derived number is the class, construct, magnitude and dimension of the result; nothing
+else of the operands is carried into it -/
+theorem derive_carries (r : Res C) :
+    (derive r).ess = r.ess ∧ (derive r).cons = r.cons ∧ (derive r).nom = r.nom ∧ (derive r).dim = r.dim :=
+  ⟨rfl, rfl, rfl, rfl⟩
+
+/-- every further operator applied to an uncertain number (original or derived) follows the
+specified table: `acc op r`, `c op acc`, `acc op acc`, `-acc` -/
+theorem step_spec (alg : CAlg C) (u : UNv C) (s : Step C) : codeStep alg u s = specStep alg u s := by
+  cases s with
+  | opR op r =>
+    have h := un_op_spec alg op (.un u) r trivial
+    simpa [pyBin, codeStep, specStep] using h
+  | opL op c =>
+    have h := un_op_spec alg op (.num c) (.un u) trivial
+    simpa [pyBin, codeStep, specStep] using h
+  | self op =>
+    have h := un_op_spec alg op (.un u) (.un u) trivial
+    simpa [pyBin, codeStep, specStep] using h
+  | neg => exact neg_spec alg u
+
+/-- **C15 for histories**: any sequence of operators, each applied to the number derived from
+the previous result, computes what the specified table computes step by step — for every
+construct algebra, every start, every sequence, errors included -/
+theorem hist_spec (alg : CAlg C) (u : UNv C) (steps : List (Step C)) :
+    runHist (codeStep alg) u steps = runHist (specStep alg) u steps := by
+  induction steps generalizing u with
+  | nil => rfl
+  | cons s rest ih =>
+    simp only [runHist, step_spec]
+    cases specStep alg u s with
+    | error e => rfl
+    | ok r => exact ih (derive r)
+
+/-- a chain through `**`: the exponent `c − V` built by reflected subtraction from a
+dimensionless `V` has magnitude `c − nominal V`, so `X ** (c − V)` has dimension
+`dim X ^ (c − nominal V)` (not `dim X ^ (nominal V − c)`) -/
+theorem exponent_by_reflected_sub (alg : CAlg C) (x v : UNv C) (c : Rat) (hv : v.dim = Dim.one)
+    (e r : Res C) (h1 : pyBin alg .sub (.num c) (.un v) = some (.ok e))
+    (h2 : pyBin alg .pow (.un x) (.un (derive e)) = some (.ok r)) :
+    e.nom = c - v.nom ∧ e.dim = Dim.one ∧ r.dim = x.dim.pow (c - v.nom) := by
+  rw [un_op_spec alg .sub (.num c) (.un v) trivial] at h1
+  rw [un_op_spec alg .pow (.un x) (.un (derive e)) trivial] at h2
+  simp only [specBin, dimOf, expoOf, unitSpec, magOp, magOf, Option.some.injEq] at h1 h2
+  cases hc : consSpec alg .sub (.num c) (.un v) with
+  | error _ => simp [hc, bind, Except.bind] at h1
+  | ok c1 =>
+    simp only [hc, bind, Except.bind, pure, Except.pure, Except.ok.injEq] at h1
+    subst h1
+    simp only [derive, hv, if_true] at h2 ⊢
+    cases hc2 : consSpec alg .pow (.un x) (.un ⟨essSpec .sub (.num c) (.un v), c1, c - v.nom, Dim.one⟩) with
+    | error _ => simp [derive, hc2, bind, Except.bind] at h2
+    | ok c2 =>
+      simp only [derive, hc2, bind, Except.bind, pure, Except.pure, Except.ok.injEq] at h2
+      subst h2
+      simp
+
+example : pyBin termAlg .sub (.num 3) (.un ⟨.interval, .B, 1, Dim.one⟩)
+    = some (.ok ⟨.interval, .nc .sub 3 .B, 3 - 1, Dim.one⟩) := rfl
+
+example : runHist (codeStep termAlg) ⟨.interval, .A, 3/2, ⟨1, 0, 0⟩⟩ [.opR .add (.num 1), .neg, .opL .sub 10]
+    = .ok ⟨.interval, .nc .sub 10 (.neg (.cn .add .A 1)), 10 - -(3/2 + 1), ⟨1, 0, 0⟩⟩ := rfl
 
 /-! ## mirror images on quantile lists -/
 namespace PBn
